@@ -2,12 +2,15 @@
 
 use crate::{Cfg, Report};
 
+pub mod attr;
+pub mod c03_clip;
 pub mod c12_tex;
 
 pub type MonFn = fn(&Cfg, &mut Report);
 
 pub fn lookup(prop: &str) -> Option<MonFn> {
     Some(match prop {
+        "C03" => c03_clip::run,
         "C12" => c12_tex::run,
         _ => return None,
     })
